@@ -29,6 +29,8 @@ def run_property(prop, tier):
     # 1. proof obligations: translator + build + audit
     st = common.proof_state(prop, tuple(getattr(mod, "TIE_MODULES", [])))
     rep.use_theorems(st)
+    if st.get("leanchecker"):
+        rep.coverage["leanchecker"] = st["leanchecker"]
     proof_broken = list(st["broken"]) if not st["ok"] else []
     # 2. correspondence + direct oracle (the property module)
     mod.run(tier, rep, st)
